@@ -75,6 +75,11 @@ def run(ctx):
     # model self-test: the excluded order must be able to violate the formula
     r = vlib.tlc("MCRepo.tla", "MCRepoUnsafeEarly.cfg", workers=4, timeout=600, metadir=os.path.join(ctx.out, "mc-unsafe"))
     ctx.negative_control(r.violated == "AllReadable", "model: instant-delete + early-delete-index must violate AllReadable")
+    # commands deriving a snapshot from snapshots of the repository (merge / rewrite / repair-snapshots): trees, index, snapshot,
+    # then (rewrite --forget, repair --delete) removal of the sources - every crash point; snapshot-first must fail
+    vlib.mc(ctx, "MCRepo.tla", "MCRepoDerive.cfg", workers=8, timeout=1800)
+    r = vlib.tlc("MCRepo.tla", "MCRepoDeriveSnapFirst.cfg", workers=4, timeout=900, metadir=os.path.join(ctx.out, "mc-snapfirst"))
+    ctx.negative_control(r.violated == "AllReadable", "model: a derived snapshot saved before its trees are flushed must violate AllReadable")
 
     n = 40 if q else 600
     progs = programs(ctx.seed, n)
